@@ -34,10 +34,10 @@ def plan(tier, seed):
             if fn == 'preimage' and not adj:
                 continue
             specs.append(dict(kind='one', fn=fn, order=o, hashseed=k))
-    ns = 48 if tier == 'thorough' else 12
+    ns = 128 if tier == 'thorough' else 12
     for k in range(ns):
         specs.append(dict(kind='multi', sub=k, pairs=2 + k % 2,
-                          count=3000 if tier == 'thorough' else 500,
+                          count=20000 if tier == 'thorough' else 500,
                           hashseed=k))
     meta = dict(
         rule=RULE,
